@@ -217,7 +217,11 @@ def check(prop, tier, only=None, verbose=False):
             if hasattr(mod, 'setup'):
                 mod.setup('native')
             fn = getattr(mod, w['cond'])
-            st, reason, _r = run_native(mod, fn, unjson(w['args']))
+            api.WITNESS[0] = True
+            try:
+                st, reason, _r = run_native(mod, fn, unjson(w['args']))
+            finally:
+                api.WITNESS[0] = False
             if st == 'fail' and match_finding(f, w['cond'], reason, unjson(w['args'])):
                 still = True
                 tot['validated'] += 1
